@@ -454,7 +454,12 @@ impl World {
                     TxResult { result_status: 7, result_message: "insufficient funds".into(), ..Default::default() }
                 }
             }
-            "fail" => TxResult { result_status: 4, result_message: "synthetic failure".into(), ..Default::default() },
+            // fail [code]: the callee fails with the given VM return code (1 function not found, 2 wrong signature,
+            // 3 contract not found, 4 user error, 5 out of gas, 9 contract invalid, 10 execution failed)
+            "fail" => {
+                let code: u64 = how.get(1).and_then(|c| c.parse().ok()).unwrap_or(4);
+                TxResult { result_status: code, result_message: "synthetic failure".into(), ..Default::default() }
+            }
             other => panic!("deliver: unknown outcome {other}"),
         };
         let line = if res.result_status == 0 {
